@@ -380,3 +380,182 @@ func vfSplit(s string, def []string) []string {
 	}
 	return out
 }
+
+// ---------------------------------------------------------------- directed PR-SCTP scenarios (C07)
+
+type vfPktData struct {
+	id, fi, tsn int
+	first     bool
+}
+
+// dataIn lists the DATA chunks of a pending packet with "first transmission" flags.
+func (w *vfWorld) dataIn(p *vfPkt) []vfPktData {
+	d := vfDecodePacket(p.raw)
+	txb, rxb := w.bases(p.from)
+	out := []vfPktData{}
+	for _, c := range d.Chunks {
+		if c.Typ != 0 && c.Typ != 64 {
+			continue
+		}
+		m, _ := vfChunkJSON(c, txb, rxb, w.identFrag(p.from))
+		tsn := m["tsn"].(int)
+		key := [2]int{p.from, tsn}
+		w.mu.Lock()
+		if w.firstPid == nil {
+			w.firstPid = map[[2]int]int{}
+		}
+		fp, seen := w.firstPid[key]
+		if !seen {
+			w.firstPid[key] = p.id
+			fp = p.id
+		}
+		w.mu.Unlock()
+		out = append(out, vfPktData{id: m["id"].(int), fi: m["fi"].(int), tsn: tsn, first: fp == p.id})
+	}
+	return out
+}
+
+type vfDirected struct {
+	Label  string
+	IL     bool
+	Unord  bool
+	RType  byte
+	RVal   uint32
+	NFrag  []int // fragments per message
+	Drop   map[[2]int]bool // (message index 1.., fragment) whose FIRST transmission is dropped
+	DropFwd int  // number of FORWARD-TSN packets to drop
+	RecvUnord bool // receiver application configures its stream object differently
+	Mixed  bool // odd messages are sent with the opposite ordering (ordered/unordered share the stream)
+}
+
+func vfRunDirected(t *testing.T, tr *vfTrace, x vfDirected) bool {
+	return vfBubble(t, x.Label, func() {
+		w := vfNewWorld(vfWorldOpt{Label: x.Label, Trace: tr, A: vfEpCfg{InitTSN: 1000, IL: x.IL, Tag: 0xA1}, B: vfEpCfg{InitTSN: 5000, IL: x.IL, Tag: 0xB1, Server: true}})
+		if !w.vfConnect() {
+			w.finish(true)
+			return
+		}
+		w.open(0, 1, 51)
+		w.setRel(0, 1, x.Unord, x.RType, x.RVal)
+		w.installCallback(0, 1, 0)
+		// a second, fully reliable ordered stream: its traffic must never suffer (C07)
+		w.open(0, 2, 51)
+		p := int(w.ep[0].a.maxPayloadSize)
+		fwdDropped := 0
+		ids := map[int]int{}
+		pumpSel := func() {
+			for k := 0; k < 200; k++ {
+				pend := w.pending(-1)
+				if len(pend) == 0 {
+					return
+				}
+				pk := pend[0]
+				drop := false
+				for _, d := range w.dataIn(pk) {
+					if mi, ok := ids[d.id]; ok && d.first && x.Drop[[2]int{mi, d.fi}] {
+						drop = true
+					}
+				}
+				if !drop && fwdDropped < x.DropFwd {
+					dd := vfDecodePacket(pk.raw)
+					for _, c := range dd.Chunks {
+						if c.Typ == 192 || c.Typ == 194 {
+							drop = true
+							fwdDropped++
+							break
+						}
+					}
+				}
+				if drop {
+					w.drop(pk.id)
+				} else {
+					w.deliver(pk.id)
+				}
+				if x.RecvUnord && w.accept(1) > 0 {
+					if s := w.stream(1, 1); s != nil {
+						w.setRel(1, 1, !x.Unord, ReliabilityTypeReliable, 0)
+					}
+				}
+			}
+		}
+		for i, nf := range x.NFrag {
+			n := nf*p - 3
+			if nf == 1 {
+				n = 20 + i
+			}
+			if x.Mixed && i%2 == 1 {
+				w.setRel(0, 1, !x.Unord, x.RType, x.RVal)
+			} else if x.Mixed {
+				w.setRel(0, 1, x.Unord, x.RType, x.RVal)
+			}
+			m, _ := w.write(0, 1, n, 51)
+			ids[m.ID] = i + 1
+			w.write(0, 2, 10+i, 53)
+			pumpSel()
+		}
+		w.heal(200 * time.Second)
+		w.snapAll = true
+		w.quiesce()
+		w.tr.emit(map[string]any{"ev": "expect", "drained": true, "t": w.now()})
+		w.finish(true)
+	})
+}
+
+func init() {
+	// prdir: exhaustive enumeration of abandonment positions on one stream (see DESIGN C07)
+	vfModes["prdir"] = func(t *testing.T) {
+		shard, nshards := vfEnvInt("VF_SHARD", 0), vfEnvInt("VF_NSHARDS", 1)
+		full := os.Getenv("VF_FULL") == "1"
+		tr, err := vfNewTrace(vfOut(fmt.Sprintf("prdir-%d.ndjson", shard)))
+		if err != nil {
+			t.Fatal(err)
+		}
+		defer tr.close()
+		k := 0
+		shapes := [][]int{{1, 1, 1, 1}, {2, 1, 2, 1}, {1, 3, 1, 1}}
+		for _, il := range []bool{false, true} {
+			for _, unord := range []bool{false, true} {
+				for si, shape := range shapes {
+					// all drop sets of <= 2 (message, fragment) positions
+					var pos [][2]int
+					for mi, nf := range shape {
+						for f := 0; f < nf; f++ {
+							pos = append(pos, [2]int{mi + 1, f})
+						}
+					}
+					var sets []map[[2]int]bool
+					for a := 0; a < len(pos); a++ {
+						sets = append(sets, map[[2]int]bool{pos[a]: true})
+						for b := a + 1; b < len(pos); b++ {
+							sets = append(sets, map[[2]int]bool{pos[a]: true, pos[b]: true})
+						}
+					}
+					for di, ds := range sets {
+						for _, variant := range []string{"plain", "fwdlost", "recvcfg", "mixed"} {
+							if !full && variant != "plain" && di%3 != 0 {
+								continue
+							}
+							k++
+							if k%nshards != shard {
+								continue
+							}
+							x := vfDirected{Label: fmt.Sprintf("prdir-%s-il%v-u%v-s%d-d%d#%d", variant, il, unord, si, di, k), IL: il, Unord: unord,
+								RType: ReliabilityTypeRexmit, RVal: 0, NFrag: shape, Drop: ds}
+							switch variant {
+							case "fwdlost":
+								x.DropFwd = 1
+							case "recvcfg":
+								x.RecvUnord = true
+							case "mixed":
+								x.Mixed = true
+							}
+							if vfRunDirected(t, tr, x) {
+								t.Fatalf("scenario %s hung", x.Label)
+							}
+						}
+					}
+				}
+			}
+		}
+	}
+}
